@@ -414,7 +414,8 @@ def binary_tier(wd, tier, verdict, stats):
     disagreements it attributes to C18 (slot counts, misbehaving <=> proof stored) are judged here."""
     import clientlib as L
     client, _ = L.build_all()
-    scens = L.fam_duplicates("c18") + L.fam_misbehaving_late("c18") + L.fam_abandon("c18") + \
+    scens = L.fam_duplicates("c18") + L.fam_misbehaving_late("c18") + L.fam_abandon("c18") + L.fam_restart("c18") + \
+        [s for s in L.fam_register("c18") if "other-address" in s["name"] or "reg2-ok" in s["name"]] + \
         [s for s in L.regression_scripts() if any(k in s["name"] for k in ("S15", "S18", "S21", "S22"))]
     if tier != "quick":
         rng = random.Random(seed() * 31 + 18)
